@@ -44,12 +44,22 @@ type sample struct {
 	TS      int         `json:"ts"`
 }
 
+// pathWant is the expectation for one way of scraping: the scrape works and
+// yields these samples, or (ok = false) it fails as a whole.
+type pathWant struct {
+	OK      bool     `json:"ok"`
+	Samples []sample `json:"samples"`
+}
+
 type tcase struct {
 	ID      int           `json:"id"`
 	Store   []expo.Metric `json:"store"`
 	Cfg     expo.Cfg      `json:"cfg"`
 	Want    []sample      `json:"want"`
-	WantDev []sample      `json:"want_dev"`
+	WantDev struct {
+		Metrics pathWant `json:"metrics"`
+		Write   pathWant `json:"write"`
+	} `json:"want_dev"`
 }
 
 func tsText(ms int64, present bool) string {
@@ -138,15 +148,41 @@ func parse(body []byte) (got []string, bad []string) {
 	return got, bad
 }
 
+func texts(ss []sample) []string {
+	out := make([]string, 0, len(ss))
+	for _, s := range ss {
+		out = append(out, wantText(s))
+	}
+	return out
+}
+
+// judge compares one scrape (failed with `failure`, or body) with the ideal and the deviation expectation.
+func judge(failure string, body []byte, want []string, dev pathWant) map[string]any {
+	one := map[string]any{}
+	if failure != "" {
+		one["verdict"] = "none"
+		if !dev.OK {
+			one["verdict"] = "want_dev"
+		}
+		one["bad"] = []string{failure}
+		return one
+	}
+	got, bad := parse(body)
+	v, miss, extra := "none", []string(nil), []string(nil)
+	if dev.OK {
+		v, miss, extra = expo.Verdict(got, want, texts(dev.Samples))
+	} else if miss, extra = expo.Diff(got, want); len(miss) == 0 && len(extra) == 0 {
+		v = "want"
+	}
+	if len(bad) > 0 {
+		v = "none"
+	}
+	one["verdict"], one["missing"], one["extra"], one["bad"] = v, miss, extra, bad
+	return one
+}
+
 func runCase(c *tcase) map[string]any {
-	want := make([]string, 0, len(c.Want))
-	for _, s := range c.Want {
-		want = append(want, wantText(s))
-	}
-	wantDev := make([]string, 0, len(c.WantDev))
-	for _, s := range c.WantDev {
-		wantDev = append(wantDev, wantText(s))
-	}
+	want := texts(c.Want)
 	store := metrics.NewStore()
 	opts := []exporter.Option{exporter.Hostname(c.Cfg.Host)}
 	if c.Cfg.OmitProg {
@@ -169,44 +205,25 @@ func runCase(c *tcase) map[string]any {
 	if _, err := expo.Build(store, c.Store); err != nil {
 		vh.Fatal("case %d: building the store: %v", c.ID, err)
 	}
-	res := map[string]any{"id": c.ID}
 	paths := map[string]any{}
 
 	// /metrics
 	rec := httptest.NewRecorder()
 	promhttp.HandlerFor(reg, promhttp.HandlerOpts{}).ServeHTTP(rec, httptest.NewRequest("GET", "/metrics", nil))
-	one := map[string]any{}
+	failure := ""
 	if rec.Code != 200 {
-		one["verdict"] = "none"
-		one["bad"] = []string{"status " + strconv.Itoa(rec.Code) + ": " + strings.TrimSpace(rec.Body.String())}
-	} else {
-		got, bad := parse(rec.Body.Bytes())
-		v, miss, extra := expo.Verdict(got, want, wantDev)
-		if len(bad) > 0 {
-			v = "none"
-		}
-		one["verdict"], one["missing"], one["extra"], one["bad"] = v, miss, extra, bad
+		failure = "status " + strconv.Itoa(rec.Code) + ": " + strings.TrimSpace(rec.Body.String())
 	}
-	paths["metrics"] = one
+	paths["metrics"] = judge(failure, rec.Body.Bytes(), want, c.WantDev.Metrics)
 
 	// Exporter.Write
 	var buf bytes.Buffer
-	two := map[string]any{}
+	failure = ""
 	if err := e.Write(&buf); err != nil {
-		two["verdict"] = "none"
-		two["bad"] = []string{"Write: " + err.Error()}
-	} else {
-		got, bad := parse(buf.Bytes())
-		v, miss, extra := expo.Verdict(got, want, wantDev)
-		if len(bad) > 0 {
-			v = "none"
-		}
-		two["verdict"], two["missing"], two["extra"], two["bad"] = v, miss, extra, bad
+		failure = "Write: " + err.Error()
 	}
-	paths["write"] = two
-	res["paths"] = paths
-	res["nwant"] = len(want)
-	return res
+	paths["write"] = judge(failure, buf.Bytes(), want, c.WantDev.Write)
+	return map[string]any{"id": c.ID, "paths": paths, "nwant": len(want)}
 }
 
 func main() {
